@@ -76,6 +76,11 @@ def _gen_once(r, force_2d):
         st[at + 1:] = st[at:-1].copy()
         st[at + 1] = st[at]
         stamping = 'dup'
+    elif u < 0.28:
+        # integer time stamps (a nanosecond epoch counter beyond 2**53): the index must
+        # carry them exactly
+        stamping = 'int_ns'
+    inc_cols = [None, None, None, 'reversed', 'rotated', 'extra_leading'][int(r.integers(6))]
     wa = False if force_2d else bool(r.random() < 0.5)
     size = SIZES[int(r.integers(len(SIZES)))]
     perturb = dict(seed=int(r.integers(2 ** 31)),
@@ -131,6 +136,7 @@ def _gen_once(r, force_2d):
                        stamps=[float(x) for x in st]),
               perturb=perturb, initial=init,
               knobs=dict(with_altitude=wa, initial_size=size, stamping=stamping,
+                         inc_cols=inc_cols,
                          observe=bool(r.random() < 0.5)), ops=ops)
     try:
         m = materialise(sc)
@@ -153,9 +159,24 @@ def materialise(sc):
     dv = inc[DV_COLS].values + p['dv'] * g.standard_normal((len(inc), 3))
     dv[:, 2] += p['vertical'] * dt[:, 0]
     inc[DV_COLS] = dv
+    t0 = float(stamps[0])
     if sc['knobs'].get('stamping') == 'left':
         inc.index = pd.Index(stamps[:-1], name=inc.index.name)
-    init = pd.Series(sc['initial'], index=TRAJECTORY_COLS, name=float(stamps[0]))
+    elif sc['knobs'].get('stamping') == 'int_ns':
+        # 1.7e18 ns epoch + the sample times in whole nanoseconds
+        base = 1_700_000_000_123_456_789
+        ticks = base + np.round((stamps - stamps[0]) * 1e9).astype(np.int64)
+        inc.index = pd.Index(ticks[1:], dtype=np.int64, name=inc.index.name)
+        t0 = int(ticks[0])
+    form = sc['knobs'].get('inc_cols')
+    if form == 'reversed':
+        inc = inc[list(inc.columns[::-1])]
+    elif form == 'rotated':
+        inc = inc[list(inc.columns[3:]) + list(inc.columns[:3])]
+    elif form == 'extra_leading':
+        inc = inc.copy()
+        inc.insert(0, 'temperature', 21.5)
+    init = pd.Series(sc['initial'], index=TRAJECTORY_COLS, name=t0)
     return dict(increments=inc, initial=init)
 
 
@@ -165,7 +186,8 @@ def _row_bits(row):
 
 
 def _pva_series(vals, t):
-    return pd.Series(vals, index=TRAJECTORY_COLS, name=float(t))
+    return pd.Series(vals, index=TRAJECTORY_COLS,
+                     name=int(t) if isinstance(t, (int, np.integer)) else float(t))
 
 
 class Model:
@@ -228,7 +250,8 @@ def execute(sc, want='C02'):
     sig = []
     stats = dict(ops=0, grow=0, grow_in_predict=0, straddle=0, set_pva=0, predicts=0,
                  empty_chunks=0, rows=0, keep_att=0, blind=int(not observe), long_chunk=0,
-                 stamping=sc['knobs'].get('stamping', 'right'), zero_predict=0)
+                 stamping=sc['knobs'].get('stamping', 'right'), zero_predict=0,
+                 inc_cols=sc['knobs'].get('inc_cols'))
     init = m['initial']
     init_copy = init.copy()
     alt_ref = float(init['alt'])
@@ -251,7 +274,11 @@ def execute(sc, want='C02'):
             vd_alt[0] = float(first[5])
             first[5] = 0.0
         rows = [first]
-        t_index = [float(init.name)]
+        exact_int = isinstance(init.name, (int, np.integer))
+
+        def T(x):
+            return int(x) if exact_int else float(x)
+        t_index = [T(init.name)]
 
         def row_ok(got, k):
             want_row = rows[k]
@@ -264,7 +291,12 @@ def execute(sc, want='C02'):
             return False
 
         def traj_ok(tr):
-            if len(tr) != len(rows) or bits(tr.index) != bits(np.asarray(t_index)):
+            idx = np.asarray(tr.index)
+            same_idx = (len(idx) == len(t_index) and
+                        ((idx.dtype.kind in 'iu' and
+                          np.array_equal(idx.astype(np.int64), np.asarray(t_index, np.int64)))
+                         if exact_int else bits(idx) == bits(np.asarray(t_index))))
+            if len(tr) != len(rows) or not same_idx:
                 return "time index is not the start time followed by every applied " \
                        "increment time once"
             vals = tr.to_numpy()
@@ -305,7 +337,7 @@ def execute(sc, want='C02'):
                                                      f"(previous last row + appended)"))
                     else:
                         if not row_ok(ret.iloc[0].to_numpy(), held - 1) or \
-                                float(ret.index[0]) != t_index[-1]:
+                                T(ret.index[0]) != t_index[-1]:
                             v02.append(V('chunk-return',
                                          "integrate's first returned row is not the "
                                          "previous last row"))
@@ -317,7 +349,7 @@ def execute(sc, want='C02'):
                                          f"differs from single-shot integration "
                                          f"(capacity {cap_before}, rows held {held})"))
                     rows.extend(exp_vals[j].copy() for j in range(k))
-                    t_index += [float(t) for t in inc.index[a:b]]
+                    t_index += [T(t) for t in inc.index[a:b]]
                     if not wa:
                         _check_2d(ret.iloc[1:], alt_ref, v13, f"integrate({a}:{b})")
                 elif name in ('predict', 'predict_scaled'):
@@ -353,13 +385,13 @@ def execute(sc, want='C02'):
                 elif name == 'get_pva':
                     ret = it.get_pva()
                     log.append(ret)
-                    if not row_ok(ret.to_numpy(), held - 1) or float(ret.name) != t_index[-1]:
+                    if not row_ok(ret.to_numpy(), held - 1) or T(ret.name) != t_index[-1]:
                         v02.append(V('get', "get_pva is not the last trajectory row"))
                 elif name == 'get_time':
                     ret = it.get_time()
                     log.append(float(ret))
-                    if float(ret) != t_index[-1]:
-                        v02.append(V('get', f"get_time()={float(ret)!r}, expected "
+                    if T(ret) != t_index[-1]:
+                        v02.append(V('get', f"get_time()={T(ret)!r}, expected "
                                             f"{t_index[-1]!r}"))
                 elif name == 'get_pva_scribble':
                     # the caller edits, in place, the Series it was handed by get_pva: its
@@ -451,8 +483,8 @@ def execute(sc, want='C02'):
                 v02.append(V('time-index' if 'time index' in problem else 'appended-rows',
                              f"final trajectory: {problem}"))
             gt = it.get_time()
-            if float(gt) != t_index[-1]:
-                v02.append(V('get', f"final get_time()={float(gt)!r}, expected "
+            if T(gt) != t_index[-1]:
+                v02.append(V('get', f"final get_time()={T(gt)!r}, expected "
                                     f"{t_index[-1]!r}"))
         stats['kernel_calls'] = shim.calls
     head = f"{'3d' if wa else '2d'}|cap{size}|{'obs' if observe else 'blind'}|"
